@@ -134,7 +134,21 @@ func c17families() []c17family {
 		}},
 		{"precedence chain of 5-7 left-recursive levels E1 -> E1 o1 E2 | E2 ; ... ; EL -> n", true, func(r *rand.Rand, n int, tick func(*parsley.Context)) (parsley.Parser, string) {
 			levels := 5 + r.Intn(3)
-			ops := "pqrstuv"
+			ops := "pqrstuvwxy"
+			g := gram.New(ops[:levels-1]+"n", levels)
+			for i := 0; i < levels-1; i++ {
+				g.NTs[i] = g.Mk(gram.OpAny, g.Mk(gram.OpSeqOf, g.Ref(i), g.Rune(ops[i]), g.Ref(i+1)), g.Ref(i+1))
+			}
+			g.NTs[levels-1] = g.Rune('n')
+			s := "n"
+			for i := r.Intn(levels); len(s)+2 <= n; i++ {
+				s += string(ops[(i*3+i/2)%(levels-1)]) + "n"
+			}
+			return c17gram(g, tick), s
+		}},
+		{"precedence chain of 9-10 left-recursive levels E1 -> E1 o1 E2 | E2 ; ... ; EL -> n", true, func(r *rand.Rand, n int, tick func(*parsley.Context)) (parsley.Parser, string) {
+			levels := 9 + r.Intn(2)
+			ops := "pqrstuvwxy"
 			g := gram.New(ops[:levels-1]+"n", levels)
 			for i := 0; i < levels-1; i++ {
 				g.NTs[i] = g.Mk(gram.OpAny, g.Mk(gram.OpSeqOf, g.Ref(i), g.Rune(ops[i]), g.Ref(i+1)), g.Ref(i+1))
